@@ -131,9 +131,16 @@ func VerifyFunction(w *World, fn *ssa.Function, fc *FuncContract) (rep *FuncRepo
 			vc.recvStruct = &sv
 		}
 	}
+	vc.topParams = params
 	env := &Env{vc: vc, heap: st.heap, old: vc.entry, vars: params}
 	if fc != nil {
 		env.cf, env.pkgPath = vc.fileOf(fc), vc.pkgOf(fc)
+	}
+	if fc != nil && fc.Iterates != nil {
+		// delivery protocol ghost state: nothing delivered, not stopped
+		_, _ = vc.deliveryState(st)
+		vc.setDelivery(st, ConstArr(ArrSort(SInt, SBool), False), False)
+		vc.entry = st.heap.Clone()
 	}
 	vc.assumeStateAxioms(st)
 	if fc != nil {
@@ -240,6 +247,9 @@ func (vc *VC) atReturn(fr *frame, st *State, vals []Value, ret *ssa.Return) {
 	if fc.HasModifies {
 		vc.frameCheck(fr, st, rn)
 	}
+	if fc.Iterates != nil {
+		vc.deliveryAtReturn(fr, st, rn)
+	}
 }
 
 func (vc *VC) returnOrdinal(fr *frame, ret *ssa.Return) int {
@@ -294,7 +304,7 @@ func (vc *VC) frameFormulas(fr *frame, st *State, only map[string]bool) (out []f
 	alloc0 := vc.base0.alloc
 	r := Term{"r!", SInt}
 	for _, comp := range sortedKeys(st.heap.c) {
-		if comp == allocComp {
+		if comp == allocComp || strings.HasPrefix(comp, "ghost:iter.") {
 			continue
 		}
 		if only != nil && !only[comp] {
